@@ -21,6 +21,10 @@ CHECKS = {
          "Construction from UTC and from wall clock, naive_local (documented panic exactly outside the range), every Datelike/Timelike accessor, Display/Debug, zone conversion, equality/order/hash on the instant (also across Utc/FixedOffset), all eleven with_* replacements, day/month stepping, with_time and with_ymd_and_hms are compared with a model that applies the operation to the wall-clock reading and accepts iff the new instant lies in [MIN_UTC, MAX_UTC]; no returned value may lie outside that interval. One thin band (an edit that would create a new wall date in the headroom) accepts None or the exact value, as DESIGN.md explains.",
          "Trusted base: R-cal and the 10-line shift model in harness/src/props/c04.rs. Offsets are whole seconds so the nanosecond field is never touched by the model.",
          "DESIGN.md section 3 C04"),
+ "C05": ("proptest over structured zone models written by a reference TZif writer (v1/v2/v3, 0-40 spaced or tight transitions, fixed/alternate footers), over POSIX TZ rules (all day forms, both hemispheres, negative DST, extended times) and over the system zoneinfo files read by an independent reader; probes dense around every transition; differential against the RFC 8536 step-function model R-zone",
+         "For every zone the offset reported at an instant must be the one the zone data prescribe; instant -> wall clock -> back must contain the instant (Single, or two distinct candidates earliest first); wall times occurring once/twice/never must give Single/Ambiguous(earliest, latest)/None (the three boundary seconds the statement exempts are only checked for the round trip). Driven through the guarded read-only hook (zone from bytes / TZ string, the two lookups); the public Local route is exercised by C18.",
+         "Trusted base: R-zone (harness/src/refmodel/zone.rs: offset_at, rule evaluator, preimage, TZif writer/reader, TZ parser), validated at development time against CPython's zoneinfo on all 600 system zones (130,268 offset and fold/gap comparisons, 0 mismatches; tools/validate_zone_model.py). Domain: offsets inside (-24 h, 24 h); consecutive transitions far enough apart that their skipped/repeated wall-clock intervals do not overlap; rule transitions more than a day inside the year with the same start/end order every year.",
+         "DESIGN.md section 3 C05"),
  "C06": ("proptest (edge-biased i128 model values, limit-straddling operand pairs) differential against exact i128 arithmetic, range invariant on every returned value",
          "Every constructor, accessor, checked/operator arithmetic form, Sum, std conversion and the Display text of TimeDelta is compared with exact i128 nanosecond arithmetic on millions of generated cases per run, with generators that aim operands at the range limits, at unit-constructor limits and at products that straddle the limit; every returned duration is re-read and must lie in the closed range. Sampled, not exhaustive.",
          "Trusted base: i128 arithmetic in the harness (harness/src/props/c06.rs); TimeDelta values are observed only through num_seconds/subsec_nanos, whose mutual consistency is itself checked.",
